@@ -7,7 +7,7 @@ From Coq Require Import ZArith QArith Qcanon List Bool String Ring_theory.
 Import ListNotations.
 Require Import TV.Base.EP TV.Base.EPSound TV.Model.Lane TV.Spec.RotGates TV.gen.Gen_instructions TV.gen.Gen_stim_gates
   TV.Model.GateCheck TV.Proofs.GateProofs TV.Base.Amp TV.Proofs.CircuitProofs TV.Proofs.CircuitTheorem
-  TV.Proofs.DenseBridge TV.Proofs.KrausSem TV.Proofs.KrausCircuit.
+  TV.Proofs.DenseBridge TV.Proofs.KrausSem TV.Proofs.KrausCircuit TV.Proofs.KrausRot.
 
 (* the finite table: every GATE_TABLE row whose name Stim documents as a unitary, in both target orders *)
 Theorem C05_gate_table : forallb check_row gate_table = true.
@@ -139,3 +139,24 @@ Theorem C05_circuit_dense :
       = Amp.scale R rmul (E q) (fold_left (fun s x => gapp_doc R rO rI radd rmul ropp E half ta tb tc x s) c (kpsi R (kbasis R rO rI n j)))
       \/ (dim n <= j)%nat.
 Proof. exact circuit_mat_dense. Qed.
+
+(* T, T_DAG, R_Z, R_X, R_Y and U3 with ARBITRARY angles, on any lane of any state.  An angle is an `expo` (k pi/4 plus an integer
+   combination of three generic angles; the statement holds for all values of those) -- what the parse model carries for
+   `I[R_Z(theta=..*pi)]`.  The operator is given through phase matrices, which needs no normal form of the angle:
+   Zph(e) = diag(1, E(e)), Xph(e) = H Zph(e) H, R_Y(e) = H_YZ Zph(e) H_YZ with Stim's documented H_YZ,
+   U3(theta, phi, lambda) = Zph(phi) R_Y(theta) Zph(lambda); T = Zph(pi/4) exactly.  For the symbolic angles C05_rotations
+   identifies these programs with the README formulas.  With C01_circuit (instruction CU) these gates compose with Clifford
+   gates, measurements, resets, noise and feedback. *)
+Theorem C05_rotations_any_angle :
+  forall (R : Type) (rO rI : R) (radd rmul rsub : R -> R -> R) (ropp : R -> R),
+  ring_theory rO rI radd rmul rsub ropp eq ->
+  forall E : Qc -> R, (forall a b, E (a + b)%Qc = rmul (E a) (E b)) -> E 0%Qc = rI -> E 1%Qc = ropp rI ->
+  forall half : R, radd half half = rI -> forall ta tb tc : Qc,
+  forall name angles a ops, cu_ops name angles a = Some ops ->
+    exists q : Qc, forall psi, U R rO rI radd rmul ropp E half ta tb tc ops psi
+      = Amp.scale R rmul (E q) (spec_cu R rO rI radd rmul ropp E half ta tb tc name angles a psi).
+Proof. exact cu_sound. Qed.
+Example C05_rotations_any_angle_inhabited :
+  cu_ops "U3" [mkE 1 2 0 0; mkE 0 0 (-2) 0; mkE 3 0 0 4] 5 = Some (g_u3 5%nat (mkE 1 2 0 0) (mkE 0 0 (-2) 0) (mkE 3 0 0 4))
+  /\ cu_ops "R_Y" [mkE 0 0 0 6] 2 = Some (g_r_y 2%nat (mkE 0 0 0 6)) /\ cu_ops "T" [] 0 = Some (g_t 0%nat).
+Proof. repeat split. Qed.
